@@ -1,14 +1,25 @@
 (* Props/C06.v — the flux-sector solver reaches every target sector up to the parity obstruction.
-   Only the property theorems; proofs in Proofs/FluxSolverFacts.v, ChainFlipFacts.v, AnsatzFacts.v.
+   Only the property theorems; proofs in Proofs/FluxSolverFacts.v, ChainFlipFacts.v, AnsatzFacts.v, GreedyPairingFacts.v,
+   FluxSolverLatticeFacts.v, FluxSolverOpen.v, FluxSolverLatticeExamples.v.
 
-   NOT covered by a theorem here (S/K only, see harness/c06.py): that the implementation's float A* path search
-   meets the path contract (checked on every run on the captured paths; proved for the A* MODEL:
-   C06_astar_oracle_contract; the greedy pairing is modelled as coded and PROVED to meet the pairing contract
-   for every admissible choice oracle: C06_greedy_pairing_ok, C06_solver_contract_greedy, at the end of this file), non-mutation of the arguments (the model is functional; observed by fingerprints), dtype of the
+   Three layers:
+   1. tables level (C06_solver_contract ...): any well-formed (plaquettes, adjacent_plaquettes) tables, pairing and path search as
+      oracles with contracts; the greedy pairing is then modelled as coded and its contract PROVED (C06_solver_contract_greedy);
+   2. END TO END on the shared lattice model (C06_lattice_solver_contract, second half of this file): tables, adjacency lists, A* paths
+      (budget n_edges) and pairing are all computed by models of the koala functions from a lattice L; A* completeness on the lattice is
+      proved (C06_lattice_astar_complete, C06_lattice_astar_finds_iff_exists); no oracle hypothesis is left, only the two
+      implementation-defined choices of the pairing (any member) and the cost function (metric-like);
+   3. which sectors exist at all: closed lattice = exactly the parity-compatible ones, lattice with a boundary = all of them
+      (C06_closed_reachable_iff_parity, C06_open_all_sectors_reachable, C06_open_completion).
+
+   NOT covered by a theorem here (S/K only, see harness/c06.py): that the Python functions ARE these models (correspondence runs:
+   captured paths/pairs replayed; e2e run with the A* model's own paths), float rounding of the cost function (hypothesis fsl_cost_ok
+   is evaluated per run), non-mutation of the arguments (the model is functional; observed by fingerprints), dtype of the
    result, make_amorphous (Voronoi + SAT colouring + RNG: shell) beyond the ansatz table. *)
 From Coq Require Import List ZArith Bool Arith.
-From Koala Require Import Model.AStar Model.FluxSolver Gen.AnsatzGen
-     Proofs.AStarFacts Proofs.ChainFlipFacts Proofs.FluxSolverFacts Proofs.AnsatzFacts Proofs.GreedyPairingFacts.
+From Koala Require Import Model.Lattice Model.AStar Model.Flux Model.SpanTree Model.FluxSolver Model.FluxSolverLattice Gen.AnsatzGen
+     Proofs.AStarFacts Proofs.ChainFlipFacts Proofs.FluxSolverFacts Proofs.AnsatzFacts Proofs.GreedyPairingFacts
+     Proofs.FluxFacts Proofs.SpanTreeFacts Proofs.SpanTreeComplete Proofs.FluxSolverLatticeFacts Proofs.FluxSolverOpen Proofs.FluxSolverLatticeExamples.
 Import ListNotations.
 
 (* ---- clause "any target, any guess ... bonds in {-1,+1} whose fluxes equal the target on every plaquette when the
@@ -202,3 +213,217 @@ Example C06_greedy_nonvacuous :
   greedy_pairing pick nearest [3; 7; 1; 9; 4]%nat = caps /\
   greedy_pairing (fun l => last l 0%nat) (fun _ l => hd 0%nat l) [3; 7; 1; 9; 4]%nat = [(9, 3); (1, 7)]%nat.
 Proof. exact greedy_example. Qed.
+
+(* ==== END TO END on the shared lattice model (Model/Lattice.v): no oracle hypothesis on paths, pairing or tables is left.
+   lat_ujk_from_fluxes L h pick nearest (Model/FluxSolverLattice.v) computes everything ujk_from_fluxes reads off the lattice
+   FROM L: plaquettes = find_all_plaquettes L (C01), edges.adjacent_plaquettes = edges_plaquettes (C02), the neighbour lists
+   of graph_utils.adjacent_plaquettes (Model/Queries.v, C02), the paths by the A* model of pathfinding.py with early stopping and
+   budget maxits = n_edges (C11), the pairing by the model of _greedy_plaquette_pairing.  What remains quantified:
+   pick / nearest (CPython's set.pop order, float min: any member), and the cost function h (float centre distances), required to
+   be metric-like along the adjacency lists (fsl_cost_ok: non-negative, positive between distinct neighbours, triangle inequality
+   along every listed edge; any metric qualifies: C06_metric_cost_ok).
+   Connectivity is C14's plaquette_graph_connected (every plaquette linked to plaquette 0 through two-sided edges); it is decided by
+   the boolean fs_connected_b (C06_connected_checker_sound). ==== *)
+
+(* ---- clause "Given any target flux sector and any initial bond guess on a lattice whose plaquettes are connected through shared
+   edges, the solver returns bond variables in {-1,+1} whose fluxes equal the target on every plaquette when the number of plaquettes
+   that must change is even, and on all but exactly one when it is odd; it never raises" — for EVERY well-formed lattice without
+   self-loops: the run ends with FS_Ok u (no LatticeException, ValueError or PathFindingError), and the fluxes are those of
+   Model/Flux.v (C05's fluxes_from_ujk) on L *)
+Theorem C06_lattice_solver_contract :
+  forall (L : lattice) (ps : list plaquette) (h : nat -> nat -> Z)
+         (pick : list nat -> nat) (nearest : nat -> list nat -> nat) (target guess : list Z),
+    wf_lattice L = true -> no_self_loops L = true -> find_all_plaquettes L = Some ps ->
+    plaquette_graph_connected (edges_plaquettes L ps) (length ps) ->
+    fsl_cost_ok (fsl_adj ps (edges_plaquettes L ps)) h ->
+    (forall l, l <> [] -> In (pick l) l) -> (forall c l, l <> [] -> In (nearest c l) l) ->
+    length target = length ps -> all_pm1 target = true ->
+    length guess = Lattice.nE L -> all_pm1 guess = true ->
+    exists u, lat_ujk_from_fluxes L h pick nearest target guess = Some (FS_Ok u)
+      /\ length u = Lattice.nE L /\ all_pm1 u = true
+      /\ (Nat.even (ndiff (fluxes_real guess ps) target) = true -> fluxes_from_ujk L u = Some target)
+      /\ (Nat.even (ndiff (fluxes_real guess ps) target) = false -> ndiff (fluxes_real u ps) target = 1%nat).
+Proof. exact lat_solver_contract_ujk. Qed.
+Print Assumptions C06_lattice_solver_contract.
+
+(* ---- the same for the deprecated pair find_flux_sector / fluxes_from_bonds on L *)
+Theorem C06_lattice_solver_deprecated_contract :
+  forall (L : lattice) (ps : list plaquette) (h : nat -> nat -> Z)
+         (pick : list nat -> nat) (nearest : nat -> list nat -> nat) (target guess : list Z),
+    wf_lattice L = true -> no_self_loops L = true -> find_all_plaquettes L = Some ps ->
+    plaquette_graph_connected (edges_plaquettes L ps) (length ps) ->
+    fsl_cost_ok (fsl_adj ps (edges_plaquettes L ps)) h ->
+    (forall l, l <> [] -> In (pick l) l) -> (forall c l, l <> [] -> In (nearest c l) l) ->
+    length target = length ps -> all_pm1 target = true ->
+    length guess = Lattice.nE L -> all_pm1 guess = true ->
+    exists u f0, lat_find_flux_sector L h pick nearest target guess = Some (FS_Ok u)
+      /\ length u = Lattice.nE L /\ all_pm1 u = true
+      /\ lat_fluxes_from_bonds L guess = Some f0
+      /\ (Nat.even (ndiff f0 target) = true -> lat_fluxes_from_bonds L u = Some target)
+      /\ (Nat.even (ndiff f0 target) = false -> exists f1, lat_fluxes_from_bonds L u = Some f1 /\ ndiff f1 target = 1%nat).
+Proof. exact lat_solver_contract_bonds. Qed.
+Print Assumptions C06_lattice_solver_deprecated_contract.
+
+(* ---- ingredients of the end-to-end theorem, each a hypothesis of C06_solver_contract discharged on the lattice model:
+   (a) the tables of the model are well-formed in the solver's sense (from C01's plaquettes_spec and C02's edge_sides lemma) *)
+Theorem C06_lattice_tables_wf :
+  forall L ps, wf_lattice L = true /\ no_self_loops L = true -> find_all_plaquettes L = Some ps ->
+    fs_wf (fsl_plaqs ps) (edges_plaquettes L ps) = true.
+Proof. exact fsl_wf. Qed.
+Print Assumptions C06_lattice_tables_wf.
+
+(* (b) the two flux models (C05's on plaquette records, C06's on (edge, +-1) lists) coincide *)
+Theorem C06_lattice_fluxes_agree :
+  forall u ps, fs_fluxes_ujk (fsl_plaqs ps) u = fluxes_real u ps.
+Proof. exact fsl_fluxes_ujk_eq. Qed.
+Print Assumptions C06_lattice_fluxes_agree.
+
+(* (c) A* COMPLETENESS on the lattice: with budget maxits = n_edges and early stopping the modelled path_between_plaquettes returns,
+   for every pair of distinct plaquettes of a connected plaquette graph, a valid simple chain between them (it finds a path whenever
+   one exists, within the budget the solver passes; uses C11_astar_budget) *)
+Theorem C06_lattice_astar_complete :
+  forall (ps : list plaquette) (ep : list ep_row) (h : nat -> nat -> Z),
+    tables_agree ep (map p_edges ps) ->
+    plaquette_graph_connected ep (length ps) ->
+    fsl_cost_ok (fsl_adj ps ep) h ->
+    forall a b, (a < length ps)%nat -> (b < length ps)%nat -> a <> b ->
+      fs_path_ok ep a b (fsl_path ps ep h (length ep) a b) = true.
+Proof. exact fsl_path_contract. Qed.
+Print Assumptions C06_lattice_astar_complete.
+
+(* (d) any metric is an admissible cost function, whatever the graph; the discrete metric is one (used as the witness below) *)
+Theorem C06_metric_cost_ok :
+  forall adj h, (forall x y, (0 <= h x y)%Z) -> (forall x y, x <> y -> (0 < h x y)%Z) ->
+    (forall x y z, (h x z <= h x y + h y z)%Z) -> fsl_cost_ok adj h.
+Proof. exact fsl_metric_cost_ok. Qed.
+Print Assumptions C06_metric_cost_ok.
+
+(* (e) the connectivity hypothesis is decided by a boolean checker (run by the harness on every generated lattice) *)
+Theorem C06_connected_checker_sound :
+  forall (ep : list ep_row) F, fs_connected_b ep F = true -> plaquette_graph_connected ep F.
+Proof. exact fs_connected_b_sound. Qed.
+Print Assumptions C06_connected_checker_sound.
+
+(* ==== which sectors are reachable at all — closed versus open lattices.  (The property's "up to the parity obstruction": on a closed
+   lattice an odd number of defects cannot be removed by ANY bond configuration; on a lattice with a boundary it could be, through an
+   edge that has a plaquette on one side only, but koala's solver, whose paths use two-sided edges only, does not do it.) ==== *)
+
+(* ---- closed lattice (every directed edge lies in a plaquette), connected plaquette graph: the flux patterns realised by bond
+   configurations are EXACTLY those of total flux (-1)^n_edges ("=>": C05's global parity; "<=": the modelled solver, from the all +1
+   guess, reaches every such pattern) *)
+Theorem C06_closed_reachable_iff_parity :
+  forall (L : lattice) (ps : list plaquette) (target : list Z),
+    wf_lattice L = true -> no_self_loops L = true -> find_all_plaquettes L = Some ps ->
+    plaquette_graph_connected (edges_plaquettes L ps) (length ps) ->
+    (forall d, In d (all_darts L) -> In d (flat_map Flux.plaq_darts ps)) ->
+    length target = length ps -> all_pm1 target = true ->
+    ((exists u, length u = Lattice.nE L /\ all_pm1 u = true /\ fluxes_from_ujk L u = Some target)
+     <-> zprod target = ((-1) ^ Z.of_nat (Lattice.nE L))%Z).
+Proof. exact lat_closed_reachable_iff. Qed.
+Print Assumptions C06_closed_reachable_iff_parity.
+
+(* ---- open lattice (some edge has a plaquette on exactly one side), connected plaquette graph: EVERY pattern in {-1,+1}^F is
+   realised by some bond configuration — there is no parity obstruction *)
+Theorem C06_open_all_sectors_reachable :
+  forall (L : lattice) (ps : list plaquette) (target : list Z),
+    wf_lattice L = true -> no_self_loops L = true -> find_all_plaquettes L = Some ps ->
+    plaquette_graph_connected (edges_plaquettes L ps) (length ps) ->
+    (exists e q, fs_boundary_of (edges_plaquettes L ps) e = Some q) ->
+    length target = length ps -> all_pm1 target = true ->
+    exists u, length u = Lattice.nE L /\ all_pm1 u = true /\ fluxes_from_ujk L u = Some target.
+Proof. exact lat_open_all_sectors_reachable. Qed.
+Print Assumptions C06_open_all_sectors_reachable.
+
+(* ---- the witness is explicit: bonds u that miss the target on at most one plaquette (the solver's output) are completed by
+   fs_complete_open (flip a plaquette chain from the leftover defect to a boundary plaquette, and its boundary edge); tables level,
+   both flux conventions, any path oracle meeting the contract *)
+Theorem C06_open_completion :
+  forall (P : list fs_plaq) (ep : list (option nat * option nat)) (path : nat -> nat -> option (list nat * list nat))
+         (target u : list Z) (e0 q0 : nat),
+    fs_wf P ep = true ->
+    (forall a b, (a < length P)%nat -> (b < length P)%nat -> a <> b -> fs_path_ok ep a b (path a b) = true) ->
+    fs_find_boundary ep = Some (e0, q0) ->
+    length target = length P -> fs_pm1 target = true -> length u = length ep -> fs_pm1 u = true ->
+    (ndiff (fs_fluxes_ujk P u) target <= 1)%nat ->
+    exists u', fs_complete_open (fs_fluxes_ujk P) ep path target u = Some u'
+      /\ length u' = length ep /\ fs_pm1 u' = true /\ fs_fluxes_ujk P u' = target.
+Proof. exact fs_open_ujk. Qed.
+Print Assumptions C06_open_completion.
+
+Theorem C06_open_completion_deprecated :
+  forall (P : list fs_plaq) (ep : list (option nat * option nat)) (path : nat -> nat -> option (list nat * list nat))
+         (target u : list Z) (e0 q0 : nat),
+    fs_wf P ep = true ->
+    (forall a b, (a < length P)%nat -> (b < length P)%nat -> a <> b -> fs_path_ok ep a b (path a b) = true) ->
+    fs_find_boundary ep = Some (e0, q0) ->
+    length target = length P -> fs_pm1 target = true -> length u = length ep -> fs_pm1 u = true ->
+    (ndiff (fs_fluxes_bonds P u) target <= 1)%nat ->
+    exists u', fs_complete_open (fs_fluxes_bonds P) ep path target u = Some u'
+      /\ length u' = length ep /\ fs_pm1 u' = true /\ fs_fluxes_bonds P u' = target.
+Proof. exact fs_open_bonds. Qed.
+Print Assumptions C06_open_completion_deprecated.
+
+(* ---- "the solver returns the target whenever some bond configuration realises it" is FALSE on lattices with a boundary (not a
+   defect against the property, which promises "all but exactly one" there; recorded so that nobody reads more into the contract):
+   two unit squares side by side, target [-1; +1] from the all +1 guess: the solver returns the guess, flipping boundary edge 0 works *)
+Theorem C06_open_solver_stops_short_refuted :
+  exists L ps target guess u u',
+    wf_lattice L = true /\ no_self_loops L = true /\ find_all_plaquettes L = Some ps /\
+    plaquette_graph_connected (edges_plaquettes L ps) (length ps) /\
+    lat_ujk_from_fluxes L fsl_discrete ex_pick ex_nearest target guess = Some (FS_Ok u) /\
+    fluxes_from_ujk L u <> Some target /\
+    all_pm1 u' = true /\ length u' = Lattice.nE L /\ fluxes_from_ujk L u' = Some target.
+Proof. exact lat_open_solver_stops_short. Qed.
+Print Assumptions C06_open_solver_stops_short_refuted.
+
+(* ---- non-vacuity of the lattice-level hypotheses: a closed lattice (2 x 2 square grid on the torus) with every hypothesis of
+   C06_lattice_solver_contract / C06_closed_reachable_iff_parity and the model run; an open one (two unit squares) with every
+   hypothesis of C06_open_all_sectors_reachable, the solver's run and its completion *)
+Example C06_lattice_nonvacuous_closed :
+  exists ps,
+    wf_lattice torus22 = true /\ no_self_loops torus22 = true /\ find_all_plaquettes torus22 = Some ps /\ length ps = 4%nat /\
+    plaquette_graph_connected (edges_plaquettes torus22 ps) (length ps) /\
+    fsl_cost_ok (fsl_adj ps (edges_plaquettes torus22 ps)) fsl_discrete /\
+    (forall l, l <> [] -> In (ex_pick l) l) /\ (forall c l, l <> [] -> In (ex_nearest c l) l) /\
+    fluxes_from_ujk torus22 [1;1;1;1;1;1;1;1]%Z = Some [1;1;1;1]%Z /\
+    lat_ujk_from_fluxes torus22 fsl_discrete ex_pick ex_nearest [1;-1;-1;1]%Z [1;1;1;1;1;1;1;1]%Z
+      = Some (FS_Ok [-1;1;1;1;1;1;-1;1]%Z) /\
+    fluxes_from_ujk torus22 [-1;1;1;1;1;1;-1;1]%Z = Some [1;-1;-1;1]%Z /\
+    lat_ujk_from_fluxes torus22 fsl_discrete ex_pick ex_nearest [1;-1;1;1]%Z [1;1;1;1;1;1;1;1]%Z
+      = Some (FS_Ok [1;1;1;1;1;1;1;1]%Z).
+Proof. exact lat_example_closed. Qed.
+
+Example C06_lattice_nonvacuous_closed_cover :
+  exists ps, find_all_plaquettes torus22 = Some ps /\
+    (forall d, In d (all_darts torus22) -> In d (flat_map Flux.plaq_darts ps)) /\
+    zprod [1;-1;-1;1]%Z = ((-1) ^ Z.of_nat (Lattice.nE torus22))%Z.
+Proof. exact lat_example_closed_cover. Qed.
+
+Example C06_lattice_nonvacuous_open :
+  exists ps,
+    wf_lattice strip2 = true /\ no_self_loops strip2 = true /\ find_all_plaquettes strip2 = Some ps /\ length ps = 2%nat /\
+    plaquette_graph_connected (edges_plaquettes strip2 ps) (length ps) /\
+    fs_boundary_of (edges_plaquettes strip2 ps) 0 = Some 0%nat /\
+    fluxes_from_ujk strip2 [1;1;1;1;1;1;1]%Z = Some [1;1]%Z /\
+    lat_ujk_from_fluxes strip2 fsl_discrete ex_pick ex_nearest [-1;1]%Z [1;1;1;1;1;1;1]%Z
+      = Some (FS_Ok [1;1;1;1;1;1;1]%Z) /\
+    fs_complete_open (fs_fluxes_ujk (fsl_plaqs ps)) (edges_plaquettes strip2 ps)
+       (fsl_path ps (edges_plaquettes strip2 ps) fsl_discrete 7) [-1;1]%Z [1;1;1;1;1;1;1]%Z = Some [-1;1;1;1;1;1;1]%Z /\
+    fluxes_from_ujk strip2 [-1;1;1;1;1;1;1]%Z = Some [-1;1]%Z /\
+    fs_complete_open (fs_fluxes_ujk (fsl_plaqs ps)) (edges_plaquettes strip2 ps)
+       (fsl_path ps (edges_plaquettes strip2 ps) fsl_discrete 7) [1;-1]%Z [1;1;1;1;1;1;1]%Z = Some [-1;1;1;1;1;-1;1]%Z /\
+    fluxes_from_ujk strip2 [-1;1;1;1;1;-1;1]%Z = Some [1;-1]%Z.
+Proof. exact lat_example_open. Qed.
+
+(* ---- A* completeness in full: "it finds a path whenever one exists".  With budget maxits = n_edges and early stopping the modelled
+   path_between_plaquettes(l, a, b) DECIDES reachability in the plaquette graph: for distinct a, b it returns a path exactly when b is
+   linked to a through two-sided edges (gconn, no global connectivity assumed), and what it returns then meets the path contract.
+   So a PathFindingError out of the solver means precisely that the greedy pairing joined two plaquettes of different components. *)
+Theorem C06_lattice_astar_finds_iff_exists :
+  forall (ps : list plaquette) (ep : list ep_row) (h : nat -> nat -> Z),
+    tables_agree ep (map p_edges ps) -> fsl_cost_ok (fsl_adj ps ep) h ->
+    forall a b, a <> b ->
+      (gconn ep a b <-> fs_path_ok ep a b (fsl_path ps ep h (length ep) a b) = true)
+      /\ (fsl_path ps ep h (length ep) a b <> None <-> gconn ep a b).
+Proof. exact fsl_path_iff_reachable. Qed.
+Print Assumptions C06_lattice_astar_finds_iff_exists.
